@@ -681,3 +681,14 @@ def divmod_pairing(ck, prog):
 def run(ck, prog):
     _run_pre_divmod(ck, prog)
     divmod_pairing(ck, prog)
+
+
+# ------------------------------------------------------------------ generic: rows/cols (outer/inner) mix-up of locally allocated buffers
+_run_pre_dimension = run
+DIMENSION_FILES = ['src/linalg/mod.rs', 'src/model_selection/kfold.rs', 'src/model_selection/mod.rs']
+
+
+def run(ck, prog):
+    _run_pre_dimension(ck, prog)
+    from sa import dimension
+    dimension.run_rule(ck, prog, set(DIMENSION_FILES))
